@@ -164,8 +164,11 @@ class Cadence(collections.abc.MutableSequence):
         """
         for frame in self.frames:
             frame.ts += frame.t_start - self.t_start
-            frame.add_signal(*args, **kwargs)
-            frame.ts -= frame.t_start - self.t_start
+            try:
+                frame.add_signal(*args, **kwargs)
+            finally:
+                # Restore the frame's own time axis, even if injection raised
+                frame.ts -= frame.t_start - self.t_start
         
     def apply(self, func):
         """
